@@ -6,7 +6,7 @@ PROP = {
     "jobs": [
         job("udp-sessions", "core", "./server/", "server",
             ["harness/core/server/c07c08_fakes_test.go", "harness/core/server/c07_sessions_test.go"],
-            "^TestVerifC07", ["udp-timelines", "udp-boundary"], race=True,
+            "^TestVerifC07", ["udp-timelines", "udp-boundary", "udp-slowdial"], race=True,
             timeout_quick=300, timeout_thorough=3600),
     ],
     "race_oracle": True,
@@ -22,7 +22,11 @@ PROP = {
              "session lock and yield to the scheduler 0..50 times instead (a virtual sleep there would hang the bubble); "
              "amounts chosen by hash of (seed, call, session, n). The first cases "
              "force each role in turn. boundary: one session, last activity (datagram / fragment / reply) at offsets "
-             "around the 1 s sweep grid x timeouts x a second datagram at offsets around the expiry sweep. A case is "
+             "around the 1 s sweep grid x timeouts x a second datagram at offsets around the expiry sweep. slowdial: the dial / request hook of a new session is gated "
+             "(parks until released) and starts timeout+{1,50,600}ms before a sweep instant; at that instant the driver "
+             "spins (no clock) until the sweeper waits for the session lock or has closed the session, then releases "
+             "the dial; x {dial, hook, hook with rewrite} x timeouts {100,300}ms x 0/3 bystander sessions x what follows "
+             "(end, datagram queued behind the dial, reply, same ID again). A case is "
              "non-trivial when at least one idle expiry and at least one delivered reply occurred; distinct = distinct "
              "(timeout, script)."),
     "assumptions": [
